@@ -149,3 +149,11 @@ package state
 //@   assumed
 //@   requires st != nil
 //@   modifies nothing
+
+// Language selection (C18): a known ISO-639 code selects that language, anything else leaves it alone.
+//@ func (*State).SetLanguage
+//@   serves C18
+//@   requires st != nil
+//@   modifies st.Language
+//@   ensures[C18] @known isoKnown(code) ==> result == nil && st.Language != nil && fresh(st.Language) && st.Language.Code == isoPart3(code) && st.Language.Name == isoName(code)
+//@   ensures[C18] @unknown !isoKnown(code) ==> result != nil && st.Language == old(st.Language)
